@@ -1,6 +1,9 @@
 package c09
 
-import "fmt"
+import (
+	"fmt"
+	"strings"
+)
 
 // QP is one sibling queue of an input, in natural units (GPUs; CPU = cores, memory = MB are
 // derived by scaling, see scales). -1 means "unlimited" for D (deserved quota) and L (limit).
@@ -32,7 +35,6 @@ type Lattice struct {
 	Use    []float64 `json:"usage"`
 	// Plan names the set of (tie-break, insertion order, map seed) evaluations per input.
 	Plan string `json:"orders_plan"`
-	// SkipZeroUseK: skip (k>0) when every queue has usage 0 is NOT done - kept false; documented only.
 }
 
 func (l *Lattice) Tuples() []QP {
@@ -111,22 +113,23 @@ func Blocks(tier string) []Lattice {
 		n3k := Lattice{Name: "n3-sub-tbf", N: 3, Totals: []float64{1, 3, 4, 7}, Ks: []float64{1, 2},
 			Des: []float64{0, 1}, Lim: []float64{-1}, Wt: fullWt, Prio: fullPrio,
 			Req: []float64{.5, 5}, Use: fullUse, Plan: "perms"}
-		return []Lattice{n1, n2, n3, n3k}
+		// cheapest first: if the internal deadline ever hits, it cuts the tail of the largest block
+		return []Lattice{n1, n3k, n3, n2}
 	}
 	n2.Plan = "all"
 	n3a := Lattice{Name: "n3-nousage", N: 3, Totals: fullTotals, Ks: []float64{0},
 		Des: fullDes, Lim: []float64{-1, 1, 3}, Wt: fullWt, Prio: fullPrio,
-		Req: fullReq, Use: []float64{0}, Plan: "perms+tb"}
+		Req: []float64{0, .5, 2, 5}, Use: []float64{0}, Plan: "perms+tb"}
 	n3b := Lattice{Name: "n3-tbf", N: 3, Totals: fullTotals, Ks: []float64{1, 2},
 		Des: []float64{0, 1}, Lim: []float64{-1, 1}, Wt: fullWt, Prio: fullPrio,
-		Req: []float64{.5, 2, 5}, Use: fullUse, Plan: "perms+tb"}
+		Req: []float64{.5, 2, 5}, Use: fullUse, Plan: "perms+seeds+tb"}
 	n4 := Lattice{Name: "n4-sub", N: 4, Totals: fullTotals, Ks: []float64{0},
 		Des: []float64{0, 1}, Lim: []float64{-1, 1}, Wt: fullWt, Prio: fullPrio,
-		Req: []float64{.5, 2}, Use: []float64{0}, Plan: "perms+tb"}
+		Req: []float64{.5, 2}, Use: []float64{0}, Plan: "perms+seeds+tb"}
 	n4k := Lattice{Name: "n4-sub-tbf", N: 4, Totals: []float64{2, 4, 7}, Ks: []float64{2},
 		Des: []float64{0}, Lim: []float64{-1}, Wt: []float64{1, 2}, Prio: fullPrio,
 		Req: []float64{.5, 5}, Use: fullUse, Plan: "perms"}
-	return []Lattice{n1, n2, n3a, n3b, n4, n4k}
+	return []Lattice{n1, n4k, n3b, n4, n2, n3a}
 }
 
 // permutations of 0..n-1 in lexicographic order (index 0 = identity)
@@ -159,19 +162,20 @@ type order struct {
 }
 
 // plan returns the evaluations run per input. The first entry of each TB value is that
-// variant's reference; all others of the same TB must agree with it (law g).
+// variant's reference; all others of the same TB must agree with it (law g). The plan name is a
+// '+'-separated list of:
 //
-//	"perms"    : TB0 x all n! insertion orders x seed 0, + TB0 x identity x seeds 1..n-1
-//	"perms+tb" : "perms" + TB1 x {identity, reversed} x seed 0
-//	"all"      : TB in {0,1} x all n! insertion orders x seeds 0..n-1
+//	"perms" : tie-break 0 x all n! insertion orders x map seed 0 (always included)
+//	"seeds" : tie-break 0 x identity insertion order x map seeds 1..n-1
+//	"tb"    : tie-break 1 x {identity, reversed} insertion order x map seed 0
+//	"all"   : tie-break {0,1} x all n! insertion orders x map seeds 0..n-1
 //
 // Seeds >= n iterate exactly like seed 0 for maps with <= n entries (asserted by probeMapOrder),
 // so seeds 0..7 collapse to seeds 0..n-1.
 func plan(name string, n int) []order {
 	np := len(permutations(n))
 	var out []order
-	switch name {
-	case "all":
+	if name == "all" {
 		for tb := 0; tb < 2; tb++ {
 			for s := 0; s < n; s++ {
 				for p := 0; p < np; p++ {
@@ -182,15 +186,21 @@ func plan(name string, n int) []order {
 				break
 			}
 		}
-	default:
-		for p := 0; p < np; p++ {
-			out = append(out, order{0, p, 0})
-		}
-		for s := 1; s < n; s++ {
-			out = append(out, order{0, 0, s})
-		}
-		if name == "perms+tb" && n > 1 {
-			out = append(out, order{1, 0, 0}, order{1, np - 1, 0})
+		return out
+	}
+	for p := 0; p < np; p++ {
+		out = append(out, order{0, p, 0})
+	}
+	for _, f := range strings.Split(name, "+") {
+		switch f {
+		case "seeds":
+			for s := 1; s < n; s++ {
+				out = append(out, order{0, 0, s})
+			}
+		case "tb":
+			if n > 1 {
+				out = append(out, order{1, 0, 0}, order{1, np - 1, 0})
+			}
 		}
 	}
 	return out
